@@ -77,6 +77,24 @@ def replay_update_sticky(sc):
     return got != want, f"Spot().update(LOG); update(IDENTITY); value({path.tolist()}) = {got} but a fresh Spot gives {want}"
 
 
+def replay_shared_underlying(sc):
+    """one underlying object used by two products: the first is priced with a log-simulated process, the second with an
+    identity-simulated one; the second product must read the spot itself"""
+    path = np.array(sc.get("path") or [1.0, 1.3, 0.9])
+    out = []
+    for cls in (UND.Spot, UND.LogSpot, UND.Libors):
+        u = cls()
+        first = PROD.Product(payoff_underlying=u, payoff=PAY.Forward(strike=0.0), maturity=1.0)
+        second = PROD.Product(payoff_underlying=u, payoff=PAY.Forward(strike=0.0), maturity=1.0)
+        first.update(REP.LOG)
+        second.update(REP.IDENDITY)
+        got = second.payoff_underlying.value(None, path, None)
+        want = cls().value(None, path, None)
+        if got != want:
+            out.append(f"{cls.__name__} shared by two products: after first.update(LOG), second.update(IDENTITY) the second product reads {got!r} on the path {path.tolist()}, a fresh {cls.__name__} reads {want!r}")
+    return bool(out), "; ".join(out[:2]) if out else "second product reads the identity representation"
+
+
 def replay_asian(sc):
     t = np.array(sc["t"])
     p = np.array(sc["p"])
@@ -193,6 +211,18 @@ def h_representation(ctx, n):
     u.update(REP.IDENDITY)
     ctx.prove("C17.representation_switch_is_not_sticky", EQ(u.value(None, path, None), UND.Spot().value(None, path, None)),
               replay=(replay_update_sticky, lambda m: {"path": _vals(m, path)}))
+    # the same, through the products: one underlying object shared by two products priced with processes of different representation
+    for cls in (UND.Spot, UND.LogSpot):
+        if cls is UND.LogSpot:
+            for x in path:
+                ctx.assume(x > 0)
+        shared = cls()
+        first = PROD.Product(payoff_underlying=shared, payoff=PAY.Forward(strike=0.0), maturity=1.0)
+        second = PROD.Product(payoff_underlying=shared, payoff=PAY.Forward(strike=0.0), maturity=1.0)
+        first.update(REP.LOG)
+        second.update(REP.IDENDITY)
+        ctx.prove("C17.product_reads_the_representation_it_was_last_updated_to", EQ(second.payoff_underlying.value(None, path, None), cls().value(None, path, None)),
+                  info={"underlying": cls.__name__}, replay=(replay_shared_underlying, lambda m: {"path": _vals(m, path)}))
 
 
 def h_asian(ctx, n):
@@ -389,6 +419,55 @@ def h_nth_default(ctx, n):
     ctx.prove("C17.first_to_default_is_min_of_default_times", AND(t1 <= each[0], t1 <= each[1], OR(t1 == each[0], t1 == each[1]), same), info={"n": n})
 
 
+def replay_default_history(sc):
+    """real NthDefaultTimes / _DefaultTimes objects valued on several paths one after the other: each value equals the value a fresh
+    object gives on that path"""
+    times = np.array([0.0, 0.5, 1.0, 1.5])
+    a = [-0.2, -0.3]
+    paths = [np.array([[0.0, -0.5, -0.5, -0.5], [0.0, 0.0, -0.6, -0.6]]), np.array([[0.0, 0.1, 0.1, 0.2], [0.0, 0.0, 0.0, -0.5]]),
+             np.array([[0.0, 0.1, 0.1, 0.2], [0.0, 0.0, 0.1, 0.1]])]
+    bad = []
+    for name, build in (("NthDefaultTimes(index=1)", lambda: UND.NthDefaultTimes(default_levels=a, index=1)), ("NthDefaultTimes(index=2)", lambda: UND.NthDefaultTimes(default_levels=a, index=2)),
+                        ("_DefaultTimes", lambda: UND._DefaultTimes(default_levels=a))):
+        und = build()
+        for k, jp in enumerate(paths):
+            got = np.asarray(und._value_log(times, jp, jp), dtype=float)
+            want = np.asarray(build()._value_log(times, jp, jp), dtype=float)
+            if not np.array_equal(got, want):
+                bad.append(f"{name}: path {k + 1} valued after {k} other path(s) gives {got.tolist()}, a fresh object gives {want.tolist()}")
+    return bool(bad), "; ".join(bad[:3]) if bad else "values do not depend on the paths valued before"
+
+
+def h_default_history(ctx, n=2, prefix="C17"):
+    """the same default-time underlying object values one path after another (what every Monte-Carlo run does): the value of the second
+    path is the value a fresh object gives, whatever happened on the first path"""
+    times = sym_times(ctx, n)
+    a = [ctx.real("a0"), ctx.real("a1")]
+    for x in a:
+        ctx.assume(x < 0)
+
+    def path(tag):
+        jp = np.empty((2, n), dtype=object)
+        for k in range(2):
+            for i in range(n):
+                jp[k, i] = ctx.real(f"{tag}{k}_{i}")
+        return jp
+
+    first, second = path("p"), path("q")
+    rp = (replay_default_history, lambda m: {})
+
+    def same(u, v):
+        u, v = np.atleast_1d(u), np.atleast_1d(v)
+        return len(u) == len(v) and AND(*[(x == y) if (isinstance(x, float) or isinstance(y, float)) else EQ(x, y) for x, y in zip(u, v)])
+
+    for name, build in (("nth1", lambda: UND.NthDefaultTimes(default_levels=a, index=1)), ("each", lambda: UND._DefaultTimes(default_levels=a))):
+        und = build()
+        und._value_log(times, first, first)
+        got = und._value_log(times, second, second)
+        want = build()._value_log(times, second, second)
+        ctx.prove(f"{prefix}.default_times_of_a_path_do_not_depend_on_the_paths_valued_before", same(got, want), info={"n": n, "object": name}, replay=rp)
+
+
 def h_twin(ctx):
     s, k = ctx.real("s"), ctx.real("k")
     call = PAY.Vanilla(strike=k, payoff_type=PT_.CALL)
@@ -411,6 +490,7 @@ def harnesses(tier):
         hs.append(Harness(f"barrier.history.{bt}", h_barrier_history, {"n": 2, "bt": bt}, max_paths=20000, batch=20))
         hs.append(Harness(f"barrier.mlmc_pair.{bt}", h_mlmc_barrier, {"n": 2, "bt": bt}, max_paths=20000, batch=20))
         hs.append(Harness(f"barrier.representation.{bt}", h_barrier_representation, {"n": 2, "bt": bt}, max_paths=20000, batch=20))
+    hs.append(Harness("default.history", h_default_history, {"n": 2}, max_paths=4000, batch=20))
     hs.append(Harness("representation", h_representation, {"n": 2}, max_paths=2000))
     hs.append(Harness("twin", h_twin, twin="must_fail"))
     return hs
